@@ -30,6 +30,10 @@ pub enum Fam {
     SkewNormal,
     InverseGaussian,
     Nig,
+    /// alternative constructors of the same types (law clause of C01 for from_mean_cv / with_mean)
+    NormalMeanCv,
+    LogNormalMeanCv,
+    PertMean,
     Binomial,
     Poisson,
     Geometric,
@@ -91,6 +95,9 @@ pub const CONTINUOUS: [Fam; 20] = [
     Fam::InverseGaussian,
     Fam::Nig,
 ];
+
+/// constructor variants whose documented law is derived from the arguments (C01 only)
+pub const CTOR_VARIANTS: [Fam; 3] = [Fam::NormalMeanCv, Fam::LogNormalMeanCv, Fam::PertMean];
 
 pub const DISCRETE: [Fam; 7] = [
     Fam::Binomial,
@@ -501,12 +508,15 @@ pub trait Sampler: Send + Sync {
     fn clone_from_dyn(&mut self, other: &dyn Sampler) -> bool;
     /// multi-output distributions: `sample_to_slice` into a buffer pre-filled with junk (None for other types)
     fn sample_into_dirty(&self, rng: &mut VRng, junk: u64) -> Option<Val>;
+    /// observable state beyond Debug (e.g. WeightedAliasIndex::weights()); None if there is none
+    fn extra_repr(&self) -> Option<String>;
 }
 
 pub struct Wrap<D, T> {
     pub d: D,
     _t: PhantomData<fn() -> T>,
     dirty: Option<fn(&D, &mut VRng, u64) -> Val>,
+    repr: Option<fn(&D) -> String>,
 }
 
 impl<D, T> Sampler for Wrap<D, T>
@@ -540,6 +550,7 @@ where
             d: self.d.clone(),
             _t: PhantomData,
             dirty: self.dirty,
+            repr: self.repr,
         })
     }
     fn as_any(&self) -> &dyn Any {
@@ -553,15 +564,15 @@ where
     }
     fn serde_rt(&self) -> Option<(Result<Box<dyn Sampler>, String>, Result<Box<dyn Sampler>, String>, String)> {
         let rt = self.d.serde_rt()?;
-        let dirty = self.dirty;
+        let (dirty, repr) = (self.dirty, self.repr);
         let bx = |r: Result<D, String>| -> Result<Box<dyn Sampler>, String> {
-            r.map(|d| Box::new(Wrap::<D, T> { d, _t: PhantomData, dirty }) as Box<dyn Sampler>)
+            r.map(|d| Box::new(Wrap::<D, T> { d, _t: PhantomData, dirty, repr }) as Box<dyn Sampler>)
         };
         Some((bx(rt.via_value), bx(rt.via_text), rt.text))
     }
     fn serde_from_text(&self, s: &str) -> Option<Result<Box<dyn Sampler>, String>> {
-        let dirty = self.dirty;
-        D::serde_from_text(s).map(|r| r.map(|d| Box::new(Wrap::<D, T> { d, _t: PhantomData, dirty }) as Box<dyn Sampler>))
+        let (dirty, repr) = (self.dirty, self.repr);
+        D::serde_from_text(s).map(|r| r.map(|d| Box::new(Wrap::<D, T> { d, _t: PhantomData, dirty, repr }) as Box<dyn Sampler>))
     }
     fn clone_from_dyn(&mut self, other: &dyn Sampler) -> bool {
         match other.as_any().downcast_ref::<Wrap<D, T>>() {
@@ -575,6 +586,9 @@ where
     fn sample_into_dirty(&self, rng: &mut VRng, junk: u64) -> Option<Val> {
         self.dirty.map(|f| f(&self.d, rng, junk))
     }
+    fn extra_repr(&self) -> Option<String> {
+        self.repr.map(|f| f(&self.d))
+    }
 }
 
 fn bx<D, T>(d: D) -> Box<dyn Sampler>
@@ -582,7 +596,22 @@ where
     D: Distribution<T> + Subject,
     T: OutVal + 'static,
 {
-    Box::new(Wrap::<D, T> { d, _t: PhantomData, dirty: None })
+    Box::new(Wrap::<D, T> { d, _t: PhantomData, dirty: None, repr: None })
+}
+
+fn bx_alias<W: rand_distr::weighted::AliasableWeight + Debug + Send + Sync + 'static>(d: WeightedAliasIndex<W>) -> Box<dyn Sampler>
+where
+    WeightedAliasIndex<W>: Distribution<usize> + Subject,
+{
+    Box::new(Wrap::<WeightedAliasIndex<W>, usize> {
+        d,
+        _t: PhantomData,
+        dirty: None,
+        repr: Some(|d| match std::panic::catch_unwind(std::panic::AssertUnwindSafe(|| d.weights())) {
+            Ok(w) => format!("weights() = {:?}", w),
+            Err(_) => "weights() panicked".to_string(),
+        }),
+    })
 }
 
 fn dirty_dirichlet<F: num_traits::Float + Default>(d: &Dirichlet<F>, rng: &mut VRng, junk: u64) -> Vec<F>
@@ -622,7 +651,7 @@ macro_rules! both {
 macro_rules! alias_int {
     ($cell:expr, $t:ty) => {
         WeightedAliasIndex::<$t>::new($cell.ip.iter().map(|&w| w as $t).collect())
-            .map(|d| bx::<_, usize>(d))
+            .map(|d| bx_alias::<$t>(d))
             .map_err(es)
     };
 }
@@ -667,6 +696,12 @@ pub fn build(cell: &Cell) -> Result<Box<dyn Sampler>, String> {
         Fam::SkewNormal => both!(cell, SkewNormal, |F| SkewNormal::<F>::new(g(0) as F, g(1) as F, g(2) as F)),
         Fam::InverseGaussian => both!(cell, InverseGaussian, |F| InverseGaussian::<F>::new(g(0) as F, g(1) as F)),
         Fam::Nig => both!(cell, NormalInverseGaussian, |F| NormalInverseGaussian::<F>::new(g(0) as F, g(1) as F)),
+        Fam::NormalMeanCv => both!(cell, Normal, |F| Normal::<F>::from_mean_cv(g(0) as F, g(1) as F)),
+        Fam::LogNormalMeanCv => both!(cell, LogNormal, |F| LogNormal::<F>::from_mean_cv(g(0) as F, g(1) as F)),
+        // p = [min, max, mean, shape]
+        Fam::PertMean => both!(cell, Pert, |F| Pert::<F>::new(g(0) as F, g(1) as F)
+            .with_shape(g(3) as F)
+            .with_mean(g(2) as F)),
         Fam::Binomial => Binomial::new(cell.ip[0], g(0)).map(|d| bx::<_, u64>(d)).map_err(es),
         Fam::Poisson => both!(cell, Poisson, |F| Poisson::<F>::new(g(0) as F)),
         Fam::Geometric => Geometric::new(g(0)).map(|d| bx::<_, u64>(d)).map_err(es),
@@ -696,11 +731,11 @@ pub fn build(cell: &Cell) -> Result<Box<dyn Sampler>, String> {
             Ft::F32 => {
                 let a: Vec<f32> = p.iter().map(|&x| x as f32).collect();
                 Dirichlet::<f32>::new(&a)
-                    .map(|d| Box::new(Wrap::<Dirichlet<f32>, Vec<f32>> { d, _t: PhantomData, dirty: Some(|d, r, j| Val::VF32(dirty_dirichlet::<f32>(d, r, j))) }) as Box<dyn Sampler>)
+                    .map(|d| Box::new(Wrap::<Dirichlet<f32>, Vec<f32>> { d, _t: PhantomData, dirty: Some(|d, r, j| Val::VF32(dirty_dirichlet::<f32>(d, r, j))), repr: None }) as Box<dyn Sampler>)
                     .map_err(es)
             }
             Ft::F64 => Dirichlet::<f64>::new(p)
-                .map(|d| Box::new(Wrap::<Dirichlet<f64>, Vec<f64>> { d, _t: PhantomData, dirty: Some(|d, r, j| Val::VF64(dirty_dirichlet::<f64>(d, r, j))) }) as Box<dyn Sampler>)
+                .map(|d| Box::new(Wrap::<Dirichlet<f64>, Vec<f64>> { d, _t: PhantomData, dirty: Some(|d, r, j| Val::VF64(dirty_dirichlet::<f64>(d, r, j))), repr: None }) as Box<dyn Sampler>)
                 .map_err(es),
         },
         Fam::AliasU8 => alias_int!(cell, u8),
@@ -716,9 +751,9 @@ pub fn build(cell: &Cell) -> Result<Box<dyn Sampler>, String> {
         Fam::AliasI128 => alias_int!(cell, i128),
         Fam::AliasF => match cell.ft {
             Ft::F32 => WeightedAliasIndex::<f32>::new(p.iter().map(|&x| x as f32).collect())
-                .map(|d| bx::<_, usize>(d))
+                .map(|d| bx_alias::<f32>(d))
                 .map_err(es),
-            Ft::F64 => WeightedAliasIndex::<f64>::new(p.clone()).map(|d| bx::<_, usize>(d)).map_err(es),
+            Ft::F64 => WeightedAliasIndex::<f64>::new(p.clone()).map(|d| bx_alias::<f64>(d)).map_err(es),
         },
         Fam::TreeU8 => tree_int!(cell, u8),
         Fam::TreeU16 => tree_int!(cell, u16),
